@@ -182,7 +182,9 @@ func (w *world) fairSuffix() (problem string) {
 			for hops := 0; len(m) > 0 && hops < 8; hops++ {
 				_, out, err := w.s[to].Deliver(nil, m, tBase)
 				if err != nil {
-					break
+					// m is the current handshake message of the genuine peer (or the reply it provoked):
+					// retries must always be accepted or ignored, never refused
+					return fmt.Sprintf("in the fair suffix side %c refused its peer's current handshake message %s: %v", "AB"[to], msgName(m), err)
 				}
 				m, to = out, 1-to
 			}
